@@ -23,6 +23,9 @@ EXTENDS Naturals, TLC
 CONSTANTS MaxBytes,          \* bound on bytes written per direction
           Cuts,              \* subset of {"origin", "transit"}: where the active path may be cut (alternative exists)
           OriginErrorFatal,  \* TRUE: a send attempt in the origin's re-route window aborts the connection
+          ForwarderWaitsOnNode, \* FALSE = the code as it is: a forwarder waiting to hand a datagram to a link's writer is released
+                             \* when that link's session ends; TRUE = documented counter-example: it waits for the NODE's
+                             \* context, so the upstream session of a transit node is wedged for ever by a congested link that is cut
           AcceptLeavesDeadline, \* FALSE = the code as it is; TRUE = documented counter-example: the accept path leaves a read
                              \* deadline ("accepted + 60 s") armed on the stream it hands to the application
           MaxNotices,        \* bound on unreachable notices about this connection's addresses
@@ -74,6 +77,18 @@ Cut(where) ==
   /\ path' = IF where = "origin" THEN "origin_window" ELSE "transit_window"
   /\ UNCHANGED <<written, avail, read, wClosed, finAvail, rEOF, rErr, conn, appClosed, notices>>
 
+\* A transit link on the active path stops draining (its writer sits in Send, the next forward waits for the
+\* writer: back-pressure reaches the upstream session), and is then cut.  The alternative path enters the transit
+\* node through the same upstream session.  "stall" \in Cuts enables the pair.
+Stall ==
+  /\ conn = "up" /\ path = "ok" /\ "stall" \in cutsLeft
+  /\ cutsLeft' = cutsLeft \ {"stall"} /\ path' = "transit_stalled"
+  /\ UNCHANGED <<written, avail, read, wClosed, finAvail, rEOF, rErr, conn, appClosed, notices>>
+CutStalled ==
+  /\ path = "transit_stalled"
+  /\ path' = IF ForwarderWaitsOnNode THEN "wedged" ELSE "transit_window"
+  /\ UNCHANGED <<written, avail, read, wClosed, finAvail, rEOF, rErr, conn, cutsLeft, appClosed, notices>>
+
 \* a send attempt (data, ack or keep-alive) during the origin's window gets a synchronous error
 SendError ==
   /\ conn = "up" /\ path = "origin_window" /\ OriginErrorFatal
@@ -122,9 +137,9 @@ ReadError(d) ==
   /\ rErr' = [rErr EXCEPT ![d] = TRUE]
   /\ UNCHANGED <<written, avail, read, wClosed, finAvail, rEOF, conn, path, cutsLeft, appClosed, notices>>
 
-Progress == (\E d \in Dirs : Transmit(d) \/ EOF(d) \/ ReadError(d) \/ (\E k \in 1..MaxBytes : Read(d, k))) \/ Rerouted
+Progress == CutStalled \/ (\E d \in Dirs : Transmit(d) \/ EOF(d) \/ ReadError(d) \/ (\E k \in 1..MaxBytes : Read(d, k))) \/ Rerouted
 Next == \/ \E d \in Dirs : (\E k \in 1..MaxBytes : Write(d, k) \/ Read(d, k)) \/ CloseWrite(d) \/ Transmit(d) \/ EOF(d) \/ ReadError(d) \/ Notice(d) \/ DeadlineExpires(d)
-        \/ (\E w \in {"origin", "transit"} : Cut(w)) \/ SendError \/ Rerouted \/ Lost
+        \/ (\E w \in {"origin", "transit"} : Cut(w)) \/ SendError \/ Rerouted \/ Lost \/ Stall \/ CutStalled
 
 Spec == Init /\ [][Next]_vars /\ WF_vars(Progress)
 
